@@ -1,5 +1,7 @@
 """Obligations per property. quick/thorough = per-condition CPU timeout (s) in that tier (absent = not run there)."""
 
+_FF0 = {'VERIF_FINITE_FLOATS': '1'}
+
 
 def O(oid, harness, fn, quick=None, thorough=None, what='', bound='', env=None, **kw):
   d = dict(oid=oid, harness=harness, fn=fn, quick=quick, thorough=thorough, what=what, bound=bound, env=env or {})
@@ -36,8 +38,8 @@ PROPS['C16'] = dict(
           'bounds definitions: rejected iff non-finite, reversed or mixed int/float; type inferred'),
         O('C16.factory_feasible_numeric2', 'harness.c16_validation', 'factory_feasible_numeric2', 200, None,
           'numeric feasible values (1..2, all reals/nan/inf): rejected iff non-finite / empty name; else sorted, unique'),
-        O('C16.factory_feasible_numeric3', 'harness.c16_validation', 'factory_feasible_numeric', None, 2400,
-          'numeric feasible values (1..3, all reals/nan/inf): rejected iff non-finite / empty name; otherwise sorted, '
+        O('C16.factory_feasible_numeric3', 'harness.c16_validation', 'factory_feasible_numeric', None, 1500, env=_FF0,
+          what='numeric feasible values (1..3, finite reals; non-finite covered for <= 2 values): rejected iff non-finite / empty name; otherwise sorted, '
           'unique, DISCRETE, bounds = (min, max)'),
         O('C16.factory_feasible_strings', 'harness.c16_validation', 'factory_feasible_strings', 300, 900,
           'string feasible values: rejected iff mixed with numbers / empty name; otherwise sorted, CATEGORICAL'),
